@@ -26,6 +26,8 @@ func catch(f func()) (msg string, panicked bool) {
 
 func hx(b []byte) string { return hex.EncodeToString(b) }
 
+func hexDecode(s string) ([]byte, error) { return hex.DecodeString(s) }
+
 func seqBytes(n int) []byte {
 	b := make([]byte, n)
 	for i := range b {
